@@ -118,7 +118,58 @@ pub fn crypto_stream<S: Src>(s: &mut S) {
         assert!(cw.flush().is_ok());
     }
     let stream = good.buf.clone();
-    match s.below(4) {
+    match s.below(6) {
+        4 => {
+            // writer: the inner writer accepts everything but its flush fails: flush() reports it, and neither a second
+            // flush nor Drop panics (with an empty payload nothing is written after the nonce and nothing is flushed)
+            if n == 0 { return; }
+            let mut w = NWriter::new();
+            w.flush_fails = true;
+            let r = std::panic::catch_unwind(std::panic::AssertUnwindSafe(|| {
+                let mut failed = false;
+                match CryptoWriter::new(&mut w, key) {
+                    Err(_) => failed = true,
+                    Ok(mut cw) => {
+                        for c in payload.chunks(piece.max(1)) { if cw.write_all(c).is_err() { failed = true; break; } }
+                        if cw.flush().is_err() { failed = true; }
+                    }
+                }
+                failed
+            }));
+            match r {
+                Ok(failed) => assert!(failed, "C08: a failing flush of the inner writer surfaces as Err"),
+                Err(_) => panic!("C08: a failing flush of the inner writer must not end in a panic (flush or Drop)"),
+            }
+        }
+        5 => {
+            // reader: the stream cut exactly at a chunk boundary is a clean end of stream: exactly the plaintext of the
+            // chunks before the cut is handed out, then 0 -- never more, never the same bytes twice
+            let mut bounds: Vec<(usize, usize)> = Vec::new(); // (stream offset after chunk, plaintext bytes so far)
+            let mut p = 12usize;
+            let mut plain = 0usize;
+            while p + 8 <= stream.len() {
+                let mut l = [0u8; 8]; l.copy_from_slice(&stream[p..p + 8]);
+                let cl = u64::from_le_bytes(l) as usize;
+                p += 8 + cl; plain += cl - 16;
+                bounds.push((p, plain));
+            }
+            if bounds.len() < 2 { return; }
+            let (cut, expect) = bounds[s.below(bounds.len() - 1)];
+            let mut rd = NReader::new(&stream[..cut]);
+            let mut cr = match CryptoReader::new(&mut rd, key) { Ok(c) => c, Err(_) => panic!("C07: CryptoReader::new on a stream cut at a chunk boundary") };
+            let mut back = Vec::new();
+            let want = [1usize, 4096, 1 << 20][s.below(3)];
+            let mut buf = vec![0u8; want];
+            loop {
+                match cr.read(&mut buf) {
+                    Ok(0) => break,
+                    Ok(k) => { assert!(k <= want, "C07: read reports at most the buffer size"); back.extend_from_slice(&buf[..k]); }
+                    Err(_) => break,
+                }
+                assert!(back.len() <= expect, "C07/C14: a stream cut at a chunk boundary hands out more than the chunks before the cut contain ({} > {})", back.len(), expect);
+            }
+            assert!(back[..] == payload[..back.len()], "C07: what is handed out is a prefix of the plaintext");
+        }
         0 => {
             // reader: any chunking / interruption pattern of the inner reader
             let mut rd = NReader::new(&stream);
